@@ -1,5 +1,99 @@
+/-
+C03 — CLIENT SIDE after the server's death: `qb_ipcc_send`, `qb_ipcc_recv`, `qb_ipcc_event_recv`,
+`qb_ipcc_sendv_recv` (lib/ipcc.c) as a small state machine with an abstract clock (milliseconds).
+
+Abstractions (both transports behave alike at this level, see the comments):
+  * the server dies at time `deathAt`; from then on the setup socket reports POLLHUP at once and a
+    send fails with a disconnect error (assumption about the kernel, outside the model);
+  * worst case for waiting: the server produces nothing more, only what is queued (`respQ`) arrives;
+  * the transport's receive primitive (`qb_rb_chunk_read` → `sem_timedwait`/`sem_trywait`/`sem_wait`;
+    `qb_ipc_us_recv_at_most` → `poll` on the datagram socket) with an empty queue returns -ETIMEDOUT
+    after exactly its timeout, and never with timeout -1 (`none`).
+`fixD65 = false` is the code before /repo 948de44 (qb_ipcc_recv did not look at `is_connected`).
+Core Lean only.
+-/
 import QbVerif.Model.IpcLife
 namespace QbVerif.IpcLife.Client
 open QbVerif.IpcLife
+
+/-- `QB_IPC_MAX_WAIT_MS` -/
+def MAX_WAIT : Nat := 2000
+
+structure Cl where
+  /-- `c->is_connected` -/
+  conn : Bool := true
+  /-- responses queued for the client -/
+  respQ : Nat := 0
+  now : Nat := 0
+  /-- the server is dead (POLLHUP visible, sends fail) from this time on -/
+  deathAt : Nat := 0
+  fixD65 : Bool := true
+  /-- a call was entered that never returns -/
+  stuck : Bool := false
+  deriving DecidableEq, Repr, Inhabited
+
+inductive Rc where
+  | size | disc | etimedout | eagain
+  deriving DecidableEq, Repr, Inhabited
+
+def Cl.hup (c : Cl) : Bool := decide (c.deathAt ≤ c.now)
+
+/-- `c->funcs.recv(&c->response, …, T)`; `none` = -1 -/
+def trRecv (c : Cl) (T : Option Nat) : Cl × Rc :=
+  if c.respQ > 0 then ({ c with respQ := c.respQ - 1 }, .size)
+  else match T with
+    | none => ({ c with stuck := true }, .etimedout)
+    | some d => ({ c with now := c.now + d }, .etimedout)
+
+/-- `_check_connection_state_with(c, -ETIMEDOUT, …)`: `poll(…, 0)` of the setup socket -/
+def checkTimedOut (c : Cl) : Cl × Rc :=
+  if c.hup then ({ c with conn := false }, .disc) else (c, .etimedout)
+
+/-- `qb_ipcc_recv` -/
+def ipccRecv (c : Cl) (T : Option Nat) : Cl × Rc :=
+  let T := if c.fixD65 && !c.conn then some 0 else T          -- D65: `if (!c->is_connected) ms_timeout = 0`
+  let r := trRecv c T
+  match r.2 with
+  | .size => r
+  | _ => if r.1.stuck then r else checkTimedOut r.1
+
+/-- `qb_ipcc_send[v]`: the notification byte (shm) / the datagram (socket) fails once the server is dead -/
+def ipccSend (c : Cl) : Cl × Rc :=
+  if c.hup then ({ c with conn := false }, .disc) else (c, .size)
+
+/-- `qb_ipcc_event_recv` with `evtQ` events readable: `_check_connection_state_with(c, -EAGAIN, …, T, POLLIN)`
+    = `poll(setup [+ event socket], T)`; POLLHUP wins over POLLIN in `qb_ipc_us_ready` -/
+def eventRecv (c : Cl) (T : Option Nat) (evtQ : Nat) : Cl × Rc :=
+  if c.hup then ({ c with conn := false }, .disc)
+  else if evtQ > 0 then (c, .size)
+  else match T with
+    | none => ({ c with now := c.deathAt, conn := false }, .disc)
+    | some d =>
+      if c.deathAt ≤ c.now + d then ({ c with now := c.deathAt, conn := false }, .disc)
+      else ({ c with now := c.now + d }, .eagain)
+
+/-- the `do … while (res == -EAGAIN && c->is_connected)` loop of `qb_ipcc_sendv_recv`;
+    `T = none` is `ms_timeout == -1`, `rem` = `timeout_rem` -/
+def recvLoop : Nat → Cl → Option Nat → Nat → Cl × Rc
+  | 0, c, _, _ => ({ c with stuck := true }, .eagain)
+  | fuel + 1, c, T, rem =>
+    let tnow := if rem > MAX_WAIT || T.isNone then MAX_WAIT else rem
+    let r := ipccRecv c (some tnow)
+    match r.2 with
+    | .etimedout =>
+      if T.isNone then (if r.1.conn then recvLoop fuel r.1 T rem else (r.1, .eagain))
+      else if rem - tnow > 0 then (if r.1.conn then recvLoop fuel r.1 T (rem - tnow) else (r.1, .eagain))
+      else (r.1, .etimedout)
+    | .eagain => if r.1.conn then recvLoop fuel r.1 T rem else (r.1, .eagain)
+    | x => (r.1, x)
+
+/-- `qb_ipcc_sendv_recv`; the fuel is an upper bound of the number of iterations -/
+def sendvRecv (c : Cl) (T : Option Nat) : Cl × Rc :=
+  let s := ipccSend c
+  match s.2 with
+  | .size => recvLoop (c.deathAt - c.now + T.getD 0 + 2) s.1 T (T.getD 0)
+  | _ => s
+
+/-- not used by the differential run: the server-death direction is judged by the property oracle -/
 def caseServerDeath (_t : Transport) (_pre : List Char) (_api : String) (_tmo : Int) (_s : Nat) (_dry : Bool) : List String := ["todo"]
 end QbVerif.IpcLife.Client
